@@ -533,6 +533,11 @@ func (tb *TB) And(a, b *Term) *Term {
 	if isC(b, mask(a.T.W)) || a == b {
 		return a
 	}
+	// (x & y) & c  ->  (x & c) & (y & c): keeps every symbolic-by-symbolic conjunction confined to
+	// the bits of the constant mask (cheap in the integer back-end)
+	if b.IsConst() && a.Op == OpAnd && !a.A.IsConst() && !a.B.IsConst() {
+		return tb.bin(OpAnd, a.T, tb.And(a.A, b), tb.And(a.B, b))
+	}
 	return tb.bin(OpAnd, a.T, a, b)
 }
 func (tb *TB) Or(a, b *Term) *Term {
